@@ -151,16 +151,40 @@ func famSignRotation(tr *Trace, id *int, scratch string) int {
 			{"deb", "debsign", "certify-only primary key, signing subkey", off.priv, []rotKey{off}, strs(off.ids)},
 			{"rpm", "", "certify-only primary key, signing subkey", off.priv, []rotKey{off}, strs(off.ids)},
 		}
+		// a requested key id whose last hexadecimal digit is zero (and one that starts with zeros, if the draw gives one)
+		var zkey rotKey
+		for try := 0; try < 400; try++ {
+			k := newPGPKey("zero")
+			if strings.HasSuffix(k.ids[0], "0") {
+				zkey = k
+				break
+			}
+		}
+		type shapeT = struct {
+			f, method, shape string
+			file             []byte
+			keys             []rotKey
+			want             []any
+		}
+		if zkey.priv != nil {
+			shapes = append(shapes, shapeT{"deb", "debsign", "key id ending in 0 requested:" + zkey.ids[0], zkey.priv, []rotKey{zkey}, []any{zkey.ids[0]}},
+				shapeT{"rpm", "", "key id ending in 0 requested:" + zkey.ids[0], zkey.priv, []rotKey{zkey}, []any{zkey.ids[0]}},
+				shapeT{"deb", "dpkg-sig", "key id ending in 0 requested:" + zkey.ids[0], zkey.priv, []rotKey{zkey}, []any{zkey.ids[0]}})
+		}
 		for _, sh := range shapes {
 			kp := filepath.Join(dir, "shape-"+sh.f+sh.method+".key")
 			must(os.WriteFile(kp, sh.file, 0o600))
 			c := baseCfg("shapepkg")
 			c.Entries = []Entry{{Type: "file", Src: "src/bin", Dst: "/usr/bin/tool"}}
+			reqID := ""
+			if i := strings.Index(sh.shape, "requested:"); i >= 0 {
+				reqID = sh.shape[i+len("requested:"):]
+			}
 			switch sh.f {
 			case "deb":
-				c.DebSigKey, c.DebSigMethod = kp, sh.method
+				c.DebSigKey, c.DebSigMethod, c.DebSigKeyID = kp, sh.method, reqID
 			case "rpm":
-				c.RpmSigKey = kp
+				c.RpmSigKey, c.RpmSigKeyID = kp, reqID
 			case "apk":
 				c.ApkSigKey, c.ApkSigKeyName = kp, "shape"
 			}
